@@ -4,6 +4,7 @@
 mod canon;
 mod debug;
 mod heapgraph;
+mod lsp;
 mod natives;
 mod parse;
 mod run;
@@ -149,6 +150,7 @@ fn main() {
             "typecheck" => typeck::run_case(&case),
             "debug" => debug::run_case(&case),
             "parse" => parse::run_case(&case),
+            "lsp" => lsp::run_case(&case),
             _ => vec![json!(["bad_mode", mode2])],
         };
         let events = if main_thread {
